@@ -300,3 +300,19 @@ PROPS['C06'] = dict(
     trace=dict(module='PosTrace', cfg='PosTrace.cfg'),
     assumptions=['TLC; PosTrace as transcription of the property; HeapMC checks position tracking on both the corrected and the as-is heap',
                  'position tracking is independent of heap order: C05\'s known findings do not affect it'])
+
+# --------------------------------------------------------------------------
+# C08 cache LRU (sequential)
+PROPS['C08'] = dict(
+    mc=[dict(module='LRUMC', cfg=('LRUMC_q.cfg', 'LRUMC_t.cfg'), emit=True, workers=8),
+        dict(module='LRUMC', cfg='LRUMC_q2.cfg', emit=True, workers=4),
+        dict(module='LRUMC', cfg=('LRUMC_unit_q.cfg', 'LRUMC_unit_t.cfg'), emit=True, workers=4),
+        dict(module='LRUHeapMC', cfg='LRUHeapMC_fixed.cfg', workers=4),
+        dict(module='LRUHeapMC', cfg=('LRUHeapMC_gen_q.cfg', 'LRUHeapMC_gen_t.cfg'), workers=4, emit=True),
+        dict(module='LRUHeapMC', cfg='LRUHeapMC_f2.cfg', workers=1, expect_violation=True, emit=True),
+        dict(module='LRUHeapMC', cfg='LRUHeapMC_asis.cfg', workers=1, expect_violation=True, emit=True)],
+    trace=dict(module='LRUTrace', cfg='LRUTrace.cfg'),
+    asis=dict(module='LRUHeapTrace', cfg='LRUHeapTrace_asis.cfg'),
+    assumptions=['TLC; LRU.tla as transcription of the property; LRUHeap.tla/Heap.tla as transcription of cache.go, lru.go, heapq.go',
+                 'known finding F2 is attributed by the as-is model LRUHeapTrace(Known={F1,F2}); the TLC counterexample of LRUHeapMC(Known={F2}) is replayed on the real cache',
+                 'Clear\'s callback order is unconstrained (exactly-once only)'])
